@@ -5,3 +5,4 @@ import RpyProofs.Props.C20
 import RpyProofs.MatBridge
 import RpyProofs.Props.C04
 import RpyProofs.Props.C10
+import RpyProofs.Props.C19
